@@ -50,7 +50,7 @@ type glueCase struct {
 	Repos    []glueRepo `json:"repos"`
 	Packages []string   `json:"packages"`        // contents.packages as written
 	Extra    []string   `json:"extra,omitempty"` // build.WithExtraPackages (--package-append)
-	Mode     string     `json:"mode"`            // "single" | "multi" | "lock"
+	Mode     string     `json:"mode"`            // "single" | "multi" | "lock" | "hist"
 	Cache    string     `json:"cache,omitempty"` // "" (cache dir, shared HEAD cache) | "noshare" | "offline" (first invocation warms the directory, the others run offline)
 	// one entry per invocation in this process (fresh build contexts every time): true = all process-wide caches
 	// are emptied first (cold), false = whatever the earlier invocations left is still there (warm)
@@ -61,6 +61,9 @@ type glueCase struct {
 	// follows names reachable from the world); a padding package in Go's answer has no id and is a mismatch.
 	Big     int `json:"big,omitempty"`
 	BigArch int `json:"big_arch,omitempty"`
+	// mode "hist": rounds on ONE NewMultiArch value, repository updates between the rounds (glue_history.go);
+	// Hist[0] is the first round (no updates before it)
+	Hist []glueRound `json:"hist,omitempty"`
 }
 
 const (
